@@ -1133,6 +1133,9 @@ func decodeRawPacketFlowRecord(data *[]byte) (SFlowRawPacketFlowRecord, error) {
 	header := []byte{}
 	var fdf SFlowFlowDataFormat
 
+	if len(*data) < 24 {
+		return SFlowRawPacketFlowRecord{}, errors.New("raw packet flow record too small")
+	}
 	*data, fdf = (*data)[4:], SFlowFlowDataFormat(binary.BigEndian.Uint32((*data)[:4]))
 	rec.EnterpriseID, rec.Format = fdf.decode()
 	*data, rec.FlowDataLength = (*data)[4:], binary.BigEndian.Uint32((*data)[:4])
@@ -1140,7 +1143,10 @@ func decodeRawPacketFlowRecord(data *[]byte) (SFlowRawPacketFlowRecord, error) {
 	*data, rec.FrameLength = (*data)[4:], binary.BigEndian.Uint32((*data)[:4])
 	*data, rec.PayloadRemoved = (*data)[4:], binary.BigEndian.Uint32((*data)[:4])
 	*data, rec.HeaderLength = (*data)[4:], binary.BigEndian.Uint32((*data)[:4])
-	headerLenWithPadding := int(rec.HeaderLength + ((4 - rec.HeaderLength) % 4))
+	headerLenWithPadding, err := sflowPaddedLen(*data, rec.HeaderLength)
+	if err != nil {
+		return SFlowRawPacketFlowRecord{}, err
+	}
 	*data, header = (*data)[headerLenWithPadding:], (*data)[:headerLenWithPadding]
 	rec.Header = gopacket.NewPacket(header, LayerTypeEthernet, gopacket.Default)
 	return rec, nil
@@ -1179,6 +1185,9 @@ func decodeExtendedSwitchFlowRecord(data *[]byte) (SFlowExtendedSwitchFlowRecord
 	es := SFlowExtendedSwitchFlowRecord{}
 	var fdf SFlowFlowDataFormat
 
+	if len(*data) < 24 {
+		return SFlowExtendedSwitchFlowRecord{}, errors.New("extended switch flow record too small")
+	}
 	*data, fdf = (*data)[4:], SFlowFlowDataFormat(binary.BigEndian.Uint32((*data)[:4]))
 	es.EnterpriseID, es.Format = fdf.decode()
 	*data, es.FlowDataLength = (*data)[4:], binary.BigEndian.Uint32((*data)[:4])
@@ -1222,10 +1231,17 @@ func decodeExtendedRouterFlowRecord(data *[]byte) (SFlowExtendedRouterFlowRecord
 	var fdf SFlowFlowDataFormat
 	var extendedRouterAddressType SFlowIPType
 
+	if len(*data) < 12 {
+		return SFlowExtendedRouterFlowRecord{}, errors.New("extended router flow record too small")
+	}
 	*data, fdf = (*data)[4:], SFlowFlowDataFormat(binary.BigEndian.Uint32((*data)[:4]))
 	er.EnterpriseID, er.Format = fdf.decode()
 	*data, er.FlowDataLength = (*data)[4:], binary.BigEndian.Uint32((*data)[:4])
 	*data, extendedRouterAddressType = (*data)[4:], SFlowIPType(binary.BigEndian.Uint32((*data)[:4]))
+	// next hop address, source mask and destination mask
+	if len(*data) < extendedRouterAddressType.Length()+8 {
+		return SFlowExtendedRouterFlowRecord{}, errors.New("extended router flow record too small")
+	}
 	*data, er.NextHop = (*data)[extendedRouterAddressType.Length():], (*data)[:extendedRouterAddressType.Length()]
 	*data, er.NextHopSourceMask = (*data)[4:], binary.BigEndian.Uint32((*data)[:4])
 	*data, er.NextHopDestinationMask = (*data)[4:], binary.BigEndian.Uint32((*data)[:4])
@@ -1338,6 +1354,9 @@ func (asd SFlowASDestination) String() string {
 }
 
 func (ad *SFlowASDestination) decodePath(data *[]byte) error {
+	if len(*data) < 8 {
+		return errors.New("SFlow AS path segment too small")
+	}
 	*data, ad.Type = (*data)[4:], SFlowASPathType(binary.BigEndian.Uint32((*data)[:4]))
 	*data, ad.Count = (*data)[4:], binary.BigEndian.Uint32((*data)[:4])
 	// ad.Count is an attacker-controlled 32-bit field and each member that
@@ -1363,10 +1382,17 @@ func decodeExtendedGatewayFlowRecord(data *[]byte) (SFlowExtendedGatewayFlowReco
 	var communitiesLength uint32
 	var community uint32
 
+	if len(*data) < 12 {
+		return SFlowExtendedGatewayFlowRecord{}, errors.New("extended gateway flow record too small")
+	}
 	*data, fdf = (*data)[4:], SFlowFlowDataFormat(binary.BigEndian.Uint32((*data)[:4]))
 	eg.EnterpriseID, eg.Format = fdf.decode()
 	*data, eg.FlowDataLength = (*data)[4:], binary.BigEndian.Uint32((*data)[:4])
 	*data, extendedGatewayAddressType = (*data)[4:], SFlowIPType(binary.BigEndian.Uint32((*data)[:4]))
+	// next hop address, AS, source AS, peer AS and AS path count
+	if len(*data) < extendedGatewayAddressType.Length()+16 {
+		return SFlowExtendedGatewayFlowRecord{}, errors.New("extended gateway flow record too small")
+	}
 	*data, eg.NextHop = (*data)[extendedGatewayAddressType.Length():], (*data)[:extendedGatewayAddressType.Length()]
 	*data, eg.AS = (*data)[4:], binary.BigEndian.Uint32((*data)[:4])
 	*data, eg.SourceAS = (*data)[4:], binary.BigEndian.Uint32((*data)[:4])
@@ -1378,6 +1404,9 @@ func decodeExtendedGatewayFlowRecord(data *[]byte) (SFlowExtendedGatewayFlowReco
 			return eg, err
 		}
 		eg.ASPath = append(eg.ASPath, asPath)
+	}
+	if len(*data) < 4 {
+		return eg, errors.New("extended gateway flow record too small for communities")
 	}
 	*data, communitiesLength = (*data)[4:], binary.BigEndian.Uint32((*data)[:4])
 	// communitiesLength is an attacker-controlled 32-bit field and each
@@ -1392,6 +1421,9 @@ func decodeExtendedGatewayFlowRecord(data *[]byte) (SFlowExtendedGatewayFlowReco
 	for j := uint32(0); j < communitiesLength; j++ {
 		*data, community = (*data)[4:], binary.BigEndian.Uint32((*data)[:4])
 		eg.Communities[j] = community
+	}
+	if len(*data) < 4 {
+		return eg, errors.New("extended gateway flow record too small for local pref")
 	}
 	*data, eg.LocalPref = (*data)[4:], binary.BigEndian.Uint32((*data)[:4])
 	return eg, nil
@@ -1443,22 +1475,32 @@ func decodeExtendedURLRecord(data *[]byte) (SFlowExtendedURLRecord, error) {
 	eur := SFlowExtendedURLRecord{}
 	var fdf SFlowFlowDataFormat
 	var urlLen uint32
-	var urlLenWithPad int
 	var hostLen uint32
-	var hostLenWithPad int
 	var urlBytes []byte
 	var hostBytes []byte
 
+	if len(*data) < 16 {
+		return SFlowExtendedURLRecord{}, errors.New("extended URL record too small")
+	}
 	*data, fdf = (*data)[4:], SFlowFlowDataFormat(binary.BigEndian.Uint32((*data)[:4]))
 	eur.EnterpriseID, eur.Format = fdf.decode()
 	*data, eur.FlowDataLength = (*data)[4:], binary.BigEndian.Uint32((*data)[:4])
 	*data, eur.Direction = (*data)[4:], SFlowURLDirection(binary.BigEndian.Uint32((*data)[:4]))
 	*data, urlLen = (*data)[4:], binary.BigEndian.Uint32((*data)[:4])
-	urlLenWithPad = int(urlLen + ((4 - urlLen) % 4))
+	urlLenWithPad, err := sflowPaddedLen(*data, urlLen)
+	if err != nil {
+		return SFlowExtendedURLRecord{}, err
+	}
 	*data, urlBytes = (*data)[urlLenWithPad:], (*data)[:urlLenWithPad]
 	eur.URL = string(urlBytes[:urlLen])
+	if len(*data) < 4 {
+		return SFlowExtendedURLRecord{}, errors.New("extended URL record too small for host")
+	}
 	*data, hostLen = (*data)[4:], binary.BigEndian.Uint32((*data)[:4])
-	hostLenWithPad = int(hostLen + ((4 - hostLen) % 4))
+	hostLenWithPad, err := sflowPaddedLen(*data, hostLen)
+	if err != nil {
+		return SFlowExtendedURLRecord{}, err
+	}
 	*data, hostBytes = (*data)[hostLenWithPad:], (*data)[:hostLenWithPad]
 	eur.Host = string(hostBytes[:hostLen])
 	return eur, nil
@@ -1759,23 +1801,33 @@ func decodeExtendedUserFlow(data *[]byte) (SFlowExtendedUserFlow, error) {
 	eu := SFlowExtendedUserFlow{}
 	var fdf SFlowFlowDataFormat
 	var srcUserLen uint32
-	var srcUserLenWithPad int
 	var srcUserBytes []byte
 	var dstUserLen uint32
-	var dstUserLenWithPad int
 	var dstUserBytes []byte
 
+	if len(*data) < 16 {
+		return SFlowExtendedUserFlow{}, errors.New("extended user flow record too small")
+	}
 	*data, fdf = (*data)[4:], SFlowFlowDataFormat(binary.BigEndian.Uint32((*data)[:4]))
 	eu.EnterpriseID, eu.Format = fdf.decode()
 	*data, eu.FlowDataLength = (*data)[4:], binary.BigEndian.Uint32((*data)[:4])
 	*data, eu.SourceCharSet = (*data)[4:], SFlowCharSet(binary.BigEndian.Uint32((*data)[:4]))
 	*data, srcUserLen = (*data)[4:], binary.BigEndian.Uint32((*data)[:4])
-	srcUserLenWithPad = int(srcUserLen + ((4 - srcUserLen) % 4))
+	srcUserLenWithPad, err := sflowPaddedLen(*data, srcUserLen)
+	if err != nil {
+		return SFlowExtendedUserFlow{}, err
+	}
 	*data, srcUserBytes = (*data)[srcUserLenWithPad:], (*data)[:srcUserLenWithPad]
 	eu.SourceUserID = string(srcUserBytes[:srcUserLen])
+	if len(*data) < 8 {
+		return SFlowExtendedUserFlow{}, errors.New("extended user flow record too small for destination user")
+	}
 	*data, eu.DestinationCharSet = (*data)[4:], SFlowCharSet(binary.BigEndian.Uint32((*data)[:4]))
 	*data, dstUserLen = (*data)[4:], binary.BigEndian.Uint32((*data)[:4])
-	dstUserLenWithPad = int(dstUserLen + ((4 - dstUserLen) % 4))
+	dstUserLenWithPad, err := sflowPaddedLen(*data, dstUserLen)
+	if err != nil {
+		return SFlowExtendedUserFlow{}, err
+	}
 	*data, dstUserBytes = (*data)[dstUserLenWithPad:], (*data)[:dstUserLenWithPad]
 	eu.DestinationUserID = string(dstUserBytes[:dstUserLen])
 	return eu, nil
@@ -1827,6 +1879,9 @@ type SFlowIpv4Record struct {
 func decodeSFlowIpv4Record(data *[]byte) (SFlowIpv4Record, error) {
 	si := SFlowIpv4Record{}
 
+	if len(*data) < 32 {
+		return SFlowIpv4Record{}, errors.New("IPv4 record too small")
+	}
 	*data, si.Length = (*data)[4:], binary.BigEndian.Uint32((*data)[:4])
 	*data, si.Protocol = (*data)[4:], binary.BigEndian.Uint32((*data)[:4])
 	*data, si.IPSrc = (*data)[4:], net.IP((*data)[:4])
@@ -1885,6 +1940,9 @@ type SFlowIpv6Record struct {
 func decodeSFlowIpv6Record(data *[]byte) (SFlowIpv6Record, error) {
 	si := SFlowIpv6Record{}
 
+	if len(*data) < 56 {
+		return SFlowIpv6Record{}, errors.New("IPv6 record too small")
+	}
 	*data, si.Length = (*data)[4:], binary.BigEndian.Uint32((*data)[:4])
 	*data, si.Protocol = (*data)[4:], binary.BigEndian.Uint32((*data)[:4])
 	*data, si.IPSrc = (*data)[16:], net.IP((*data)[:16])
@@ -1921,10 +1979,16 @@ func decodeExtendedIpv4TunnelEgress(data *[]byte) (SFlowExtendedIpv4TunnelEgress
 	rec := SFlowExtendedIpv4TunnelEgressRecord{}
 	var fdf SFlowFlowDataFormat
 
+	if len(*data) < 8 {
+		return SFlowExtendedIpv4TunnelEgressRecord{}, errors.New("extended IPv4 tunnel record too small")
+	}
 	*data, fdf = (*data)[4:], SFlowFlowDataFormat(binary.BigEndian.Uint32((*data)[:4]))
 	rec.EnterpriseID, rec.Format = fdf.decode()
 	*data, rec.FlowDataLength = (*data)[4:], binary.BigEndian.Uint32((*data)[:4])
-	rec.SFlowIpv4Record, _ = decodeSFlowIpv4Record(data)
+	var err error
+	if rec.SFlowIpv4Record, err = decodeSFlowIpv4Record(data); err != nil {
+		return SFlowExtendedIpv4TunnelEgressRecord{}, err
+	}
 
 	return rec, nil
 }
@@ -1953,10 +2017,16 @@ func decodeExtendedIpv4TunnelIngress(data *[]byte) (SFlowExtendedIpv4TunnelIngre
 	rec := SFlowExtendedIpv4TunnelIngressRecord{}
 	var fdf SFlowFlowDataFormat
 
+	if len(*data) < 8 {
+		return SFlowExtendedIpv4TunnelIngressRecord{}, errors.New("extended IPv4 tunnel record too small")
+	}
 	*data, fdf = (*data)[4:], SFlowFlowDataFormat(binary.BigEndian.Uint32((*data)[:4]))
 	rec.EnterpriseID, rec.Format = fdf.decode()
 	*data, rec.FlowDataLength = (*data)[4:], binary.BigEndian.Uint32((*data)[:4])
-	rec.SFlowIpv4Record, _ = decodeSFlowIpv4Record(data)
+	var err error
+	if rec.SFlowIpv4Record, err = decodeSFlowIpv4Record(data); err != nil {
+		return SFlowExtendedIpv4TunnelIngressRecord{}, err
+	}
 
 	return rec, nil
 }
@@ -1985,10 +2055,16 @@ func decodeExtendedIpv6TunnelEgress(data *[]byte) (SFlowExtendedIpv6TunnelEgress
 	rec := SFlowExtendedIpv6TunnelEgressRecord{}
 	var fdf SFlowFlowDataFormat
 
+	if len(*data) < 8 {
+		return SFlowExtendedIpv6TunnelEgressRecord{}, errors.New("extended IPv6 tunnel record too small")
+	}
 	*data, fdf = (*data)[4:], SFlowFlowDataFormat(binary.BigEndian.Uint32((*data)[:4]))
 	rec.EnterpriseID, rec.Format = fdf.decode()
 	*data, rec.FlowDataLength = (*data)[4:], binary.BigEndian.Uint32((*data)[:4])
-	rec.SFlowIpv6Record, _ = decodeSFlowIpv6Record(data)
+	var err error
+	if rec.SFlowIpv6Record, err = decodeSFlowIpv6Record(data); err != nil {
+		return SFlowExtendedIpv6TunnelEgressRecord{}, err
+	}
 
 	return rec, nil
 }
@@ -2017,10 +2093,16 @@ func decodeExtendedIpv6TunnelIngress(data *[]byte) (SFlowExtendedIpv6TunnelIngre
 	rec := SFlowExtendedIpv6TunnelIngressRecord{}
 	var fdf SFlowFlowDataFormat
 
+	if len(*data) < 8 {
+		return SFlowExtendedIpv6TunnelIngressRecord{}, errors.New("extended IPv6 tunnel record too small")
+	}
 	*data, fdf = (*data)[4:], SFlowFlowDataFormat(binary.BigEndian.Uint32((*data)[:4]))
 	rec.EnterpriseID, rec.Format = fdf.decode()
 	*data, rec.FlowDataLength = (*data)[4:], binary.BigEndian.Uint32((*data)[:4])
-	rec.SFlowIpv6Record, _ = decodeSFlowIpv6Record(data)
+	var err error
+	if rec.SFlowIpv6Record, err = decodeSFlowIpv6Record(data); err != nil {
+		return SFlowExtendedIpv6TunnelIngressRecord{}, err
+	}
 
 	return rec, nil
 }
@@ -2048,6 +2130,9 @@ func decodeExtendedDecapsulateEgress(data *[]byte) (SFlowExtendedDecapsulateEgre
 	rec := SFlowExtendedDecapsulateEgressRecord{}
 	var fdf SFlowFlowDataFormat
 
+	if len(*data) < 12 {
+		return SFlowExtendedDecapsulateEgressRecord{}, errors.New("extended decapsulate egress record too small")
+	}
 	*data, fdf = (*data)[4:], SFlowFlowDataFormat(binary.BigEndian.Uint32((*data)[:4]))
 	rec.EnterpriseID, rec.Format = fdf.decode()
 	*data, rec.FlowDataLength = (*data)[4:], binary.BigEndian.Uint32((*data)[:4])
@@ -2081,6 +2166,9 @@ func decodeExtendedDecapsulateIngress(data *[]byte) (SFlowExtendedDecapsulateIng
 	rec := SFlowExtendedDecapsulateIngressRecord{}
 	var fdf SFlowFlowDataFormat
 
+	if len(*data) < 12 {
+		return SFlowExtendedDecapsulateIngressRecord{}, errors.New("extended decapsulate ingress record too small")
+	}
 	*data, fdf = (*data)[4:], SFlowFlowDataFormat(binary.BigEndian.Uint32((*data)[:4]))
 	rec.EnterpriseID, rec.Format = fdf.decode()
 	*data, rec.FlowDataLength = (*data)[4:], binary.BigEndian.Uint32((*data)[:4])
@@ -2114,6 +2202,9 @@ func decodeExtendedVniEgress(data *[]byte) (SFlowExtendedVniEgressRecord, error)
 	rec := SFlowExtendedVniEgressRecord{}
 	var fdf SFlowFlowDataFormat
 
+	if len(*data) < 12 {
+		return SFlowExtendedVniEgressRecord{}, errors.New("extended VNI egress record too small")
+	}
 	*data, fdf = (*data)[4:], SFlowFlowDataFormat(binary.BigEndian.Uint32((*data)[:4]))
 	rec.EnterpriseID, rec.Format = fdf.decode()
 	*data, rec.FlowDataLength = (*data)[4:], binary.BigEndian.Uint32((*data)[:4])
@@ -2147,6 +2238,9 @@ func decodeExtendedVniIngress(data *[]byte) (SFlowExtendedVniIngressRecord, erro
 	rec := SFlowExtendedVniIngressRecord{}
 	var fdf SFlowFlowDataFormat
 
+	if len(*data) < 12 {
+		return SFlowExtendedVniIngressRecord{}, errors.New("extended VNI ingress record too small")
+	}
 	*data, fdf = (*data)[4:], SFlowFlowDataFormat(binary.BigEndian.Uint32((*data)[:4]))
 	rec.EnterpriseID, rec.Format = fdf.decode()
 	*data, rec.FlowDataLength = (*data)[4:], binary.BigEndian.Uint32((*data)[:4])
@@ -2563,6 +2657,9 @@ func decodeEthernetFrameFlowRecord(data *[]byte) (SFlowEthernetFrameFlowRecord, 
 	es := SFlowEthernetFrameFlowRecord{}
 	var fdf SFlowFlowDataFormat
 
+	if len(*data) < 32 {
+		return SFlowEthernetFrameFlowRecord{}, errors.New("ethernet frame flow record too small")
+	}
 	*data, fdf = (*data)[4:], SFlowFlowDataFormat(binary.BigEndian.Uint32((*data)[:4]))
 	es.EnterpriseID, es.Format = fdf.decode()
 	*data, es.FlowDataLength = (*data)[4:], binary.BigEndian.Uint32((*data)[:4])
